@@ -532,7 +532,9 @@ BINS = ["QQ==", "QR==", "QUI=", "QUJD", "qujd", "QUJDRA==", "AAAA", "////", "+++
 TIMES = ["2014-01-13T07:03:17Z", "2014-01-13T07:03:17.0Z", "2014-01-13T07:03:17.000000Z", "2014-01-13T07:03:17.5Z",
          "2014-01-13T07:03:17.500Z", "2014-01-13T07:03:18Z", "2020-02-29T23:59:59.999999Z", "1970-01-01T00:00:00Z",
          "1969-12-31T23:59:59Z", "2038-01-19T03:14:08Z", "2000-12-31T00:00:00.000001Z", "0999-01-02T03:04:05Z"]
-INTS = [0, 1, -1, 2, 5, 10, 80, 443, 255, 256, 65535, 1000000, -7, 2 ** 31, 2 ** 63, 10 ** 20, 99, 100]
+INTS = [0, 1, -1, 2, 5, 10, 80, 443, 255, 256, 65535, 1000000, -7, 2 ** 31, 2 ** 63, 10 ** 20, 99, 100,
+        # integers are exact: neighbours at and beyond 2^53 are different numbers, and there is no largest one
+        2 ** 53, 2 ** 53 + 1, 2 ** 53 + 2, 2 ** 63 + 1, 10 ** 20 + 1, -(2 ** 53) - 1, 10 ** 310, 10 ** 310 + 1]
 FLOATS = ["0.0", "1.0", "1.00", "-1.0", "0.5", ".5", "-.5", "+0.5", "1.5", "1.50", "2.0", "80.0", "443.000", "0.1", "0.10",
           "3.14159", "123456789.012345", "100000000000000.0", "0.000001", "-0.0", "99.99", "10.0", "5.0", "255.0", "256.0"]
 
@@ -1084,6 +1086,10 @@ def near_duplicates(rng, p, force_qualifier=False):
                 (("str", a + "' " + b), "quote-blank")]
     elif k[0] in ("int", "float"):
         n = k[1] if k[0] == "int" else int(decimal.Decimal(k[1]).to_integral_value())
+        if abs(n) >= 10 ** 14 and rng.random() < 0.7:
+            big = rng.choice([2 ** 53, 2 ** 63, 10 ** 20, 10 ** 310]) if rng.random() < 0.5 else n
+            return [(replace_at(p, path, ("atom", typ, steps, op, neg, (("list", [("int", v, False)]) if op == "IN" else ("int", v, False)))), nm)
+                    for v, nm in ((big, "big"), (big + 1, "big-plus-1"), (big + 2, "big-plus-2"), (big - 1, "big-minus-1"))]
         if abs(n) >= 10 ** 14:
             n = 7
         alts = [(("int", n, False), "int"), (("float", "%d.0" % n), "float"), (("int", n, True), "plus-sign"),
@@ -1155,7 +1161,7 @@ def flat_node(op, kids):
 DEMANDED_RULES = ("c-commute", "c-associate", "c-idempotent", "c-absorb-or", "c-absorb-and", "c-distribute", "set-order",
                   "numeric", "o-commute", "o-associate", "o-idempotent-or", "o-absorb-and", "o-absorb-fby-left",
                   "o-absorb-fby-right", "o-distribute-and", "o-distribute-fby-right", "o-distribute-fby-left",
-                  "o-distribute-nested")
+                  "o-distribute-nested", "o-two-pass", "c-two-pass")
 
 
 def rule_instance(rng, name=None):
@@ -1201,6 +1207,14 @@ def rule_instance(rng, name=None):
         if name == "o-absorb-fby-right":
             big = ("ofby", [b, a])
             return name, ("oor", [a, big] if rng.random() < 0.5 else [big, a]), a, a
+        if name == "o-two-pass":
+            # needs two rounds of one settle phase: the nested duplicate leaves a one-operand OR, whose collapse makes the
+            # AND a duplicate of its sibling
+            la, lb = ("obs", g.atom(rng.choice(TYPES))), ("obs", g.atom(rng.choice(TYPES)))
+            op = rng.choice(["oand", "ofby"])
+            dup = (op, [("oor", [la, la]), lb])
+            plain = (op, [la, lb])
+            return name, ("oor", [dup, plain] if rng.random() < 0.5 else [plain, dup]), plain, la
         if name == "o-distribute-nested":
             # two levels: A op1 (B OR (C op2 (D OR E))) with op1, op2 among AND / FOLLOWEDBY (the operand on either
             # side), against the full expansion or against the expansion of the inner level only
@@ -1265,6 +1279,12 @@ def rule_instance(rng, name=None):
     if name == "c-absorb-and":
         big = ("or", [a, b] if rng.random() < 0.5 else [b, a])
         return name, obs(("and", [a, big] if rng.random() < 0.5 else [big, a])), obs(a), a
+    if name == "c-two-pass":
+        ty = rng.choice(TYPES)
+        xa, xb = g.atom(ty), g.atom(ty)
+        dup = ("and", [("or", [xa, xa]), xb])
+        plain = ("and", [xa, xb])
+        return name, obs(("or", [dup, plain] if rng.random() < 0.5 else [plain, dup])), obs(plain), xa
     if name == "c-distribute":
         return name, obs(("and", [a, ("or", [b, c])])), obs(("or", [("and", [a, b]), ("and", [a, c])])), a
     if name == "set-order":
